@@ -125,6 +125,19 @@ class Path:
         return d
 
 
+def _is_generator(node):
+    """does the function body contain a yield of its own (not of a nested def / lambda)?"""
+    stack = list(node.body)
+    while stack:
+        n = stack.pop()
+        if isinstance(n, (ast.Yield, ast.YieldFrom)):
+            return True
+        if isinstance(n, (ast.FunctionDef, ast.Lambda, ast.ClassDef, ast.AsyncFunctionDef)):
+            continue
+        stack.extend(ast.iter_child_nodes(n))
+    return False
+
+
 class _Default:
     def __init__(self, expr):
         self.expr = expr
@@ -236,6 +249,12 @@ class Interp:
                 r = self.call_func(FuncVal(m, v, cls_ctx=m.cls), [], {})
                 return self.truth(r)
             return True
+        if isinstance(v, self.B.IterVal):
+            raise Unsupported("truthiness of an iterator")
+        h = getattr(v, "__vf_len__", None)
+        if h is not None:
+            n = h(self)
+            return n > 0 if isinstance(n, int) else to_z3(n) > 0
         return True
 
     def decide(self, v):
@@ -247,7 +266,8 @@ class Interp:
         return self.path.branch(t)
 
     def raise_(self, name, where=""):
-        raise RaiseEx(name, where)
+        fn = next((fr.func.qualname for fr in reversed(self.frames) if getattr(fr, "func", None) is not None), "")
+        raise RaiseEx(name, f"{fn} {where}".strip())
 
     # ------------------------------------------------------------------ names
     def lookup_name(self, name):
@@ -408,6 +428,12 @@ class Interp:
         if self.depth > 60:
             raise Unsupported("call depth exceeded (recursion without contract?)")
         self.frames.append(fr)
+        is_gen = _is_generator(info.node)
+        if is_gen:
+            # generator functions are run eagerly and their yields collected (assumption: the consumer does not
+            # mutate what the generator reads between resumptions; recorded in the evidence)
+            fr.yields = []
+            self.path.notes.add("generator functions evaluated eagerly (yields collected into a list)")
         try:
             for k, v in list(loc.items()):
                 if isinstance(v, _Default):
@@ -415,7 +441,11 @@ class Interp:
             try:
                 self.exec_block(info.node.body)
             except ReturnEx as r:
+                if is_gen:
+                    return self.B.IterVal(list(fr.yields))
                 return r.value
+            if is_gen:
+                return self.B.IterVal(list(fr.yields))
             return None
         finally:
             self.frames.pop()
@@ -703,6 +733,20 @@ class Interp:
             else:
                 kwargs[k.arg] = self.eval(k.value)
         return self.call(f, args, kwargs)
+
+    def _gen_frame(self):
+        for fr in reversed(self.frames):
+            if hasattr(fr, "yields"):
+                return fr
+        raise Unsupported("yield outside a generator function")
+
+    def eval_Yield(self, e):
+        self._gen_frame().yields.append(self.eval(e.value) if e.value is not None else None)
+        return None
+
+    def eval_YieldFrom(self, e):
+        self._gen_frame().yields.extend(self.B.iterate(self, self.eval(e.value)))
+        return None
 
     def eval_GeneratorExp(self, e):
         return self.B.comprehension(self, e.elt, e.generators, "gen")
